@@ -404,7 +404,41 @@ func Render(toks []string, layout int, r *Rand) (string, []TokPos) {
 
 var commentBodies = []string{"c", "send [USD 1]", "é ü 日本", "😀 𝔘", "a\u00a0b\u2003c", "a * b", "x/y", "\"q\"", "{ }", "remaining kept", "1/2 50%"}
 
+// tightOK: no white space is needed between these two tokens (the text lexes into the same tokens without it):
+// after an opening bracket, a comma or `=`; before a closing bracket, a comma, `=` or `(`; and between a lower-case
+// word and a token that starts with `$`, `@`, `"`, `[` or `{`.
+func tightOK(prev, next string) bool {
+	if prev == "" || next == "" {
+		return false
+	}
+	switch prev {
+	case "(", "[", "{", ",", "=":
+		return true
+	}
+	switch next {
+	case ")", "]", "}", ",", "=", "(":
+		return true
+	}
+	if strings.Trim(prev, "abcdefghijklmnopqrstuvwxyz_") == "" {
+		switch next[0] {
+		case '$', '@', '"', '[', '{':
+			return true
+		}
+	}
+	return false
+}
+
 func separator(prev, next string, layout int, r *Rand) string {
+	if layout == 2 {
+		// as few blanks as the lexer allows
+		if tightOK(prev, next) {
+			return ""
+		}
+		if prev == "" {
+			return ""
+		}
+		return " "
+	}
 	if layout == 0 {
 		if next == "send" || next == "save" || next == "set_tx_meta" || next == "set_account_meta" || (prev == "}" && next != ")" && next != "}" && next != "from" && next != "to" && next != "remaining" && next != "max" && next != "kept" && next != "destination") {
 			return "\n"
